@@ -185,10 +185,26 @@ func outcomeErr(o fakeOutcome) error {
 type fakeReply struct {
 	Delivery int
 	Addr     string
+	// a reference-typed field: like a codec decoding into a reply that already holds a map, every
+	// server that sends a payload (a reply, or the payload that accompanies a service error) INSERTS
+	// into it
+	Seen map[string]int
+}
+
+func (r *fakeReply) mark(addr string) {
+	if r.Seen == nil {
+		r.Seen = map[string]int{}
+	}
+	r.Seen[addr]++
 }
 
 func (f *fakeClient) Call(ctx context.Context, servicePath, serviceMethod string, args interface{}, reply interface{}) error {
 	o, idx := f.next(ctx)
+	if r, ok := reply.(*fakeReply); ok && r != nil && (o == foOK || o == foSvcErr) {
+		f.sc.mu.Lock() // (a map shared by mistake must not crash the harness with a concurrent-write fault)
+		r.mark(f.addr)
+		f.sc.mu.Unlock()
+	}
 	if o == foOK && reply != nil {
 		if r, ok := reply.(*fakeReply); ok {
 			r.Delivery = idx
